@@ -1,4 +1,89 @@
-// engine K harnesses for module hook 'dzkp_field' (included under cfg(kani) by /repo)
+// engine K — protocol/context/dzkp_field.rs (properties C03 and C08)
+use super::*;
+use crate::ff::U128Conversions;
+
+const P: u128 = Fp61BitPrime::PRIME as u128;
+
+/// C08: the proof-field constants are what their names say, and canonical
+#[kani::proof]
+fn c08_dzkp_constants() {
+    kani::cover!(true);
+    let half = <Fp61BitPrime as DZKPBaseField>::INVERSE_OF_TWO.as_u128();
+    let mhalf = <Fp61BitPrime as DZKPBaseField>::MINUS_ONE_HALF.as_u128();
+    let mtwo = <Fp61BitPrime as DZKPBaseField>::MINUS_TWO.as_u128();
+    assert!(half < P && mhalf < P && mtwo < P);
+    assert!((2 * half) % P == 1);
+    assert!((mhalf + half) % P == 0);
+    assert!((mtwo + 2) % P == 0);
+}
+
+/// C03/C09: nibble i/4 of output word i%4 is the 3-bit index (b0[i], b1[i], b2[i]); the nibble's top bit is 0
+#[kani::proof]
+fn c03_bits_to_table_indices() {
+    let b0: u128 = kani::any();
+    let b1: u128 = kani::any();
+    let b2: u128 = kani::any();
+    let z = bits_to_table_indices(b0, b1, b2);
+    let i: u32 = kani::any();
+    kani::assume(i < 128);
+    kani::cover!(i == 127);
+    kani::cover!(i % 4 == 2);
+    let expect = ((b0 >> i) & 1) | (((b1 >> i) & 1) << 1) | (((b2 >> i) & 1) << 2);
+    let got = (z[(i % 4) as usize] >> (4 * (i / 4))) & 0xf;
+    assert!(got == expect);
+}
+
+/// C03: on the real TABLE_U / TABLE_V and with the real field arithmetic, for all 64 assignments of (a,b,c,d,e,f):
+///   sum_k U[a|c<<1|e<<2][k] * V[b|d<<1|f<<2][k] == -1/2   <=>   e == ab ^ cd ^ f
+/// (the all-zero padding row is the case bits = 0 and is consistent).
+#[kani::proof]
+#[kani::unwind(66)]
+fn c03_uv_table_identity() {
+    kani::cover!(true);
+    let mut consistent_rows = 0u32;
+    for bits in 0u8..64 {
+        let a = bits & 1 != 0;
+        let b = bits & 2 != 0;
+        let c = bits & 4 != 0;
+        let d = bits & 8 != 0;
+        let e = bits & 16 != 0;
+        let f = bits & 32 != 0;
+        let iu = usize::from(a) | usize::from(c) << 1 | usize::from(e) << 2;
+        let iv = usize::from(b) | usize::from(d) << 1 | usize::from(f) << 2;
+        let u = &TABLE_U[iu];
+        let v = &TABLE_V[iv];
+        let s = u[0] * v[0] + u[1] * v[1] + u[2] * v[2] + u[3] * v[3];
+        let consistent = e == ((a & b) ^ (c & d) ^ f);
+        if consistent {
+            consistent_rows += 1;
+        }
+        assert!((s == <Fp61BitPrime as DZKPBaseField>::MINUS_ONE_HALF) == consistent);
+    }
+    assert!(consistent_rows == 32);
+}
+
+/// same identity, one symbolic gate assignment instead of the unrolled enumeration
+#[kani::proof]
+fn c03_uv_table_identity_sym() {
+    let bits: u8 = kani::any();
+    kani::assume(bits < 64);
+    let a = bits & 1 != 0;
+    let b = bits & 2 != 0;
+    let c = bits & 4 != 0;
+    let d = bits & 8 != 0;
+    let e = bits & 16 != 0;
+    let f = bits & 32 != 0;
+    let iu = usize::from(a) | usize::from(c) << 1 | usize::from(e) << 2;
+    let iv = usize::from(b) | usize::from(d) << 1 | usize::from(f) << 2;
+    let u = &TABLE_U[iu];
+    let v = &TABLE_V[iv];
+    let s = u[0] * v[0] + u[1] * v[1] + u[2] * v[2] + u[3] * v[3];
+    let consistent = e == ((a & b) ^ (c & d) ^ f);
+    kani::cover!(consistent);
+    kani::cover!(!consistent);
+    kani::cover!(bits == 0);
+    assert!((s == <Fp61BitPrime as DZKPBaseField>::MINUS_ONE_HALF) == consistent);
+}
 
 #[cfg(test)]
 include!(concat!(env!("IPA_VERIF_DIR"), "/.build/playback/dzkp_field.rs"));
